@@ -272,6 +272,18 @@ fn reset_faults(pre: &Machine, scn: &Scn, known: &Known, at: (usize, u32), ctx: 
         }
     }
     board_physical_unchanged(&c, pre, at, "master_reset")?;
+    {
+        // "exactly": besides the listed outputs and settings nothing else on the board changes.
+        // The interrupt status (flip-flop, source flag) and the UIO pin levels are neither outputs
+        // nor settings; the comparator / FAN status bits are left out (DESIGN.md section 6, C07).
+        let (b, p) = (c.bus().board(), pre.bus().board());
+        if b.daisr().bits() != p.daisr().bits() {
+            return Err(v("reset-untouched", at, format!("master_reset: the board's interrupt status changed 0x{:02X} -> 0x{:02X}", p.daisr().bits(), b.daisr().bits())));
+        }
+        if (b.dasr().bits() & 0x07) != (p.dasr().bits() & 0x07) {
+            return Err(v("reset-untouched", at, format!("master_reset: the UIO pin levels changed 0b{:03b} -> 0b{:03b}", p.dasr().bits() & 7, b.dasr().bits() & 7)));
+        }
+    }
     hidden_state(&c, construct(pre, true, known), at, "master_reset", ctx)?;
 
     // ---- RELOAD ----
